@@ -97,14 +97,14 @@ def _tol(r, S, xmax, c):
 
 def _cfac(sv, n):
     """conditioning class of a pair from the singular values of its covariance matrix -> c for _tol.
-    generic: 256; needle (second singular value < 1e-3 of the first): 4096; planar point sets (third singular value
+    generic: 256; needle-like: 256 * min(32, 0.02 / (s2/s1)); planar point sets (third singular value
     ~ 0, always the case for N=3): the QCP characteristic polynomial has a double root at the largest eigenvalue, which
     float32 resolves only to sqrt(eps): c = 8/sqrt(eps).  All scaled by sqrt(N/16) for the float32 accumulation."""
     if sv[0] <= 0:
         return 8.0 / math.sqrt(oracle.EPS32)
-    c = 256.0
-    if sv[1] / sv[0] < 1e-3:
-        c = 4096.0
+    # needle-like covariance (second singular value small against the first): the quartic's roots spread over orders of
+    # magnitude and the closed-form solve loses digits in proportion - continuous in the ratio, 256 for ratios >= 0.02
+    c = 256.0 * min(32.0, max(1.0, 0.02 / max(sv[1] / sv[0], 1e-12)))
     if sv[2] / sv[0] < 1e-4:
         c = 8.0 / math.sqrt(oracle.EPS32)
     return c * max(1.0, math.sqrt(n / 16.0))
